@@ -50,6 +50,15 @@ var drivers = []driver{
 	{name: "terminating", src: "out := a + 1", inputs: map[string]interface{}{"a": 41}, wantOut: "int:42", reset: map[string]interface{}{"a": 41}},
 	{name: "native-call", src: "out := len(arr) + a", inputs: map[string]interface{}{"arr": []interface{}{1, 2}, "a": 40}, wantOut: "int:42", reset: map[string]interface{}{"a": 40}},
 	{name: "runtime-error", src: "out := a + \"x\"", inputs: map[string]interface{}{"a": 1}, wantOut: "", reset: map[string]interface{}{"a": 1}},
+	// a host function that panics (with an error, a string, any other value): the call must still return, whatever the cancellation instant
+	{name: "host-panic-error", src: "out := hp(a)", inputs: map[string]interface{}{"a": 1, "hp": panicker(errors.New("boom"))}, wantOut: "", reset: map[string]interface{}{"a": 1}},
+	{name: "host-panic-string", src: "out := hp(a)", inputs: map[string]interface{}{"a": 1, "hp": panicker("boom")}, wantOut: "", reset: map[string]interface{}{"a": 1}},
+	{name: "host-panic-struct", src: "out := hp(a)", inputs: map[string]interface{}{"a": 1, "hp": panicker(struct{ code int }{7})}, wantOut: "", reset: map[string]interface{}{"a": 1}},
+	{name: "host-panic-in-loop", src: "out := 0; for i := 0; i < 2; i++ { if i == 1 { out = hp(i) } }", inputs: map[string]interface{}{"hp": panicker(42)}, wantOut: "", reset: map[string]interface{}{}},
+}
+
+func panicker(v interface{}) tengo.Object {
+	return &tengo.UserFunction{Name: "hp", Value: func(...tengo.Object) (tengo.Object, error) { panic(v) }}
 }
 
 // generated drivers: every loop form x every body statement (the "any running script" quantifier, bounded);
